@@ -266,7 +266,7 @@ def _formulas(ctx, repo):
     f = ctx.fn("primitive:Factor.level_weight_sum")
     r = [s for s in statements(f.node) if isinstance(s, ast.Return)]
     got = str(sym(r[0].value))
-    ctx.check(got in ("sum([l.weight for l in self.levels])", "sum([l.weight for l in self.levels])"), R, f, got,
+    ctx.check(got in ("sum([_b0.weight for _b0 in self.levels])",), R, f, got,
               "level weight sum = sum of level weights", "level_weight_sum is `%s`" % got, r[0])
     f = ctx.fn("weight:combination_weight")
     sn = forward(f.node)
@@ -276,7 +276,7 @@ def _formulas(ctx, repo):
     f = ctx.fn("cross_block:MultiCrossBlockRepeat.__count_exclusions")
     r = [s for s in statements(f.node) if isinstance(s, ast.Return)]
     got = str(sym(r[-1].value))
-    ctx.check(got == "sum([combination_weight(c) for c in excluded_crossings])", R, f, got,
+    ctx.check(got == "sum([combination_weight(_b0) for _b0 in excluded_crossings])", R, f, got,
               "exclusions counted with their combination weights", "exclusions are counted as `%s`" % got, r[-1])
 
     # preamble
@@ -319,7 +319,7 @@ def _formulas(ctx, repo):
     sn = forward(f.node)
     r = [s for s in statements(f.node) if isinstance(s, ast.Return)]
     got = str(sym_at(sn, r[0], r[0].value))
-    ctx.check(got == "max(concat([1], list(map(lambda l: max(concat([0], l)), crossing_trials))))", R, f, got,
+    ctx.check(got == "max(concat([1], [max(concat([0], _b0)) for _b0 in crossing_trials]))", R, f, got,
               "requirement = maximum over crossings (at least 1)", "crossing requirement is `%s`" % got, r[0])
 
     # the size each crossing is measured against: POST_PREAMBLE aligns all crossings after the unified preamble, so every
@@ -330,8 +330,8 @@ def _formulas(ctx, repo):
         a = [x for x in stmts if isinstance(x, ast.Assign) and dotted(x.targets[0]) == "crossing_trials"]
         return str(sym_at(sn, a[0], a[0].value)) if len(a) == 1 else None
     post, other = _ct(brs[0].body), _ct(brs[0].orelse)
-    want_post = "list(map(lambda c: list(map(lambda f: self.__trials_required_for_crossing(f, max(map(lambda c: self.crossing_size(c), self.crossings))), c)), self.crossings))"
-    want_other = "list(map(lambda c: list(map(lambda f: self.__trials_required_for_crossing(f, c[1]), c[0])), zip(self.crossings, map(lambda c: self.crossing_size(c), self.crossings))))"
+    want_post = "[[self.__trials_required_for_crossing(_b1, max([self.crossing_size(_b0) for _b0 in self.crossings])) for _b1 in _b0] for _b0 in self.crossings]"
+    want_other = "[[self.__trials_required_for_crossing(_b1, _b0[1]) for _b1 in _b0[0]] for _b0 in zip(self.crossings, [self.crossing_size(_b0) for _b0 in self.crossings])]"
     ctx.check(ast.unparse(brs[0].test) == "self.alignment == AlignmentMode.POST_PREAMBLE" and post == want_post, R, f, "POST_PREAMBLE requirement",
               "POST_PREAMBLE: every crossing is measured against the largest crossing size (all crossings start after the unified preamble)",
               "under POST_PREAMBLE the per-crossing requirement is `%s`, documented: unified preamble + the largest crossing size" % post, brs[0])
@@ -386,7 +386,7 @@ def _formulas(ctx, repo):
               "crossing weight is recomputed as `%s`" % got, ws[0])
     ps = [s for s in statements(f.node) if isinstance(s, ast.Assign) and dotted(s.targets[0]) == "self.preamble_sizes"]
     got = str(sym_at(sn, ps[0], ps[0].value)) if ps else ""
-    ctx.check(got == "[self._trials_per_sample_for_one_crossing(c) - self.crossing_size(c) for c in self.crossings]", R, f,
+    ctx.check(got == "[self._trials_per_sample_for_one_crossing(_b0) - self.crossing_size(_b0) for _b0 in self.crossings]", R, f,
               "preamble_sizes = %s" % got, "preamble_sizes[i] = trials for crossing i - its size", "preamble_sizes is `%s`" % got)
     # geometry
     f = ctx.fn("cross_block:MultiCrossBlockRepeat.get_geometry")
